@@ -229,6 +229,8 @@ def replay(scn):
                 calls += 1
                 want = varop(k, ds[k]) if exp["affected"][n] else ds[k]
                 w = _same(res[k], want)
+                if not w and isinstance(want, A.DimArray) and isinstance(res[k], A.DimArray) and dict(res[k].attrs) != dict(want.attrs):
+                    w = "metadata %r vs %r" % (dict(res[k].attrs), dict(want.attrs))       # the variable's own metadata, as the DimArray operation carries it
                 if w:
                     what = "variable %s (%s): Dataset result differs from %s: %s" % (
                         k, ",".join(i["vars"][n]) or "0-d", "the DimArray operation" if exp["affected"][n] else "the unchanged variable", w)
